@@ -190,6 +190,21 @@ func stressTemplates(thorough bool) []hostileInput {
 		add(fmt.Sprintf("call-arity-%d", i), entry("let zz = "+call+";"))
 		add(fmt.Sprintf("call-arity-stmt-%d", i), entry(call+";"))
 	}
+	// constant vectors of different sizes under every binary operator (a type error; the constant folder must not index past the shorter one)
+	for oi, op := range []string{"+", "-", "*", "/", "%", "&", "|", "^", "==", "<", "<<"} {
+		for _, lr := range [][2]int{{3, 2}, {4, 3}, {4, 2}, {2, 3}, {2, 4}} {
+			mk := func(n int, f string) string {
+				el := []string{"1", "2", "3", "4"}[:n]
+				return fmt.Sprintf("vec%d(%s)", n, strings.Join(el, f+", ")+f)
+			}
+			for fi, f := range []string{"", ".0", "u"} {
+				if (op == "%" || op == "&" || op == "|" || op == "^" || op == "<<") && f == ".0" {
+					continue
+				}
+				add(fmt.Sprintf("vector-size-mismatch-%d-%d%d-%d", oi, lr[0], lr[1], fi), entry("let zz = "+mk(lr[0], f)+" "+op+" "+mk(lr[1], f)+";"))
+			}
+		}
+	}
 	add("recursive-struct", "struct S { a: S }\nvar<private> p: S;\n"+entry(""))
 	add("mutual-struct", "struct A { b: B }\nstruct B { a: A }\nvar<private> p: A;\n"+entry(""))
 	add("recursive-alias", "alias A = array<A, 2>;\nvar<private> p: A;\n"+entry(""))
